@@ -108,7 +108,7 @@ static Pt gen_point(vh::Rng& r, double a, int N, int style = -1) {
 // ---------------------------------------------------------------------------- comparison helper
 struct Cmp { double ev, eg; };     // errors in units of the tolerance scale (value, gradient), already divided by eps
 // extra allowance for the library's documented-in-source displacement of near-axis points to sin(theta) = eps^1.5
-struct AxisAllow { Q dV = 0, dG = 0, sabs2 = 0; };
+struct AxisAllow { Q dV = 0, dG = 0, sabs2 = 0, small2 = 0; };
 
 struct RefEval {
   ref::HarmPoint g; ref::Legendre L; bool axis; ref::HarmPoint g2; ref::Legendre L2;
@@ -124,7 +124,7 @@ struct RefEval {
     if (axis) { ref::HarmResult o2 = ref::harm_sum(L2, g2, a, C, S, nmx, mmx, true, CA, SA);
       // net change of the sum by the displacement + everything that vanishes on the axis (the library's longitude there is arbitrary)
       al.dV = fabsq(o2.V - o.V) + o2.sabs_m1; al.dG = fmaxq(fmaxq(fabsq(o2.gx - o.gx), fabsq(o2.gy - o.gy)), fabsq(o2.gz - o.gz)) + o2.gabs_m2;
-      al.sabs2 = o2.sabs; }
+      al.sabs2 = o2.sabs; al.small2 = o2.sabs_small; }
     return o;
   }
 };
@@ -154,10 +154,13 @@ static const double SMALLCOEF = 1e-106;
 // narrow keys of two genuine corner-case defects (one key per defect, whichever monitor sees it)
 static const std::string KEY_UNDER = "oracle:C19/sh/coefficient-scaling-underflow";   // coefficients < ~1e-106 lose precision / flush to 0
 static const std::string KEY_DENORMP = "oracle:C19/sh/denormal-p-longitude";          // hypot(x,y) subnormal: cos/sin(lambda) not normalised
-static bool scaled_underflow(const ref::HarmResult& o, Q q) {
-  if (!(o.sabs > 0)) return false;
+// On the axis the sum the library actually forms is the one at its displaced colatitude (al.sabs2).
+static bool scaled_underflow(const ref::HarmResult& o, Q q, const AxisAllow* al = nullptr) {
+  Q S = o.sabs, Ssm = o.sabs_small;
+  if (al && al->sabs2 > S) { S = al->sabs2; Ssm = al->small2; }
+  if (!(S > 0)) return false;
   Q sc = ldexpq((Q)1, -614), lim = (Q)DMIN / (Q)EPS * 16;
-  return o.sabs_small > o.sabs * (Q)EPS / 64 || o.sabs * sc < lim || o.sabs * sc / q < lim;
+  return Ssm > S * (Q)EPS / 64 || S * sc < lim || S * sc / q < lim;
 }
 
 static std::string nbucket(int N) { return N <= 3 ? "N0-3" : N <= 20 ? "N8-20" : N <= 60 ? "N60" : "N200-360"; }
@@ -168,9 +171,9 @@ static void sec_selftest(Ctx& c, uint64_t idx) {
   auto fail = [&](const std::string& w) { c.herr("REF self-test failed: " + w); };
   if (idx % 4 == 0) {
     // Legendre table against the explicit definition (Ferrers function, documented normalisation), n <= 12
-    Q th = (Q)r.uniform(0, M_PI); if (idx % 8 == 0) th = (Q)r.logu(1e-12, 1e-2);
-    if (idx % 16 == 8) th = M_PIq - (Q)r.logu(1e-12, 1e-2);
-    Q t = cosq(th), u = sinq(th);
+    // theta = dl (sg = +1) or pi - dl (sg = -1), parametrised by the distance dl to the nearer pole so that nothing is lost in pi - theta
+    Q dl = (Q)r.uniform(0, M_PI / 2), sg = r.coin() ? 1 : -1; if (idx % 8 == 0) dl = (Q)r.logu(1e-12, 1e-2);
+    Q th = dl, t = sg * cosq(dl), u = sinq(dl);
     for (int nm = 0; nm < 2; ++nm) {
       ref::Legendre L; L.compute(12, 12, (ref::HarmNorm)nm, t, u);
       for (int n = 0; n <= 12; ++n) for (int m = 0; m <= n; ++m) {
@@ -179,8 +182,8 @@ static void sec_selftest(Ctx& c, uint64_t idx) {
         Q lim = (Q)1e-27 * (fabsq(e) + powq(u, m) * powq(n + 1, m) / mf);
         if (!(fabsq(e - g) <= lim)) fail("P(" + std::to_string(n) + "," + std::to_string(m) + ") table " + qs(g) + " vs definition " + qs(e));
         // derivative table against a float128 central difference of the definition
-        Q h = (Q)1e-9 * fminq(1, fminq(th, M_PIq - th)); Q e1 = ref::legendre_explicit(n, m, (ref::HarmNorm)nm, cosq(th + h), sinq(th + h)), e0 = ref::legendre_explicit(n, m, (ref::HarmNorm)nm, cosq(th - h), sinq(th - h));
-        Q d = (e1 - e0) / (2 * h), gd = L.dP(n, m);
+        Q h = (Q)1e-9 * fminq(1, th); Q e1 = ref::legendre_explicit(n, m, (ref::HarmNorm)nm, sg * cosq(th + h), sinq(th + h)), e0 = ref::legendre_explicit(n, m, (ref::HarmNorm)nm, sg * cosq(th - h), sinq(th - h));
+        Q d = sg * (e1 - e0) / (2 * h), gd = L.dP(n, m);
         if (!(fabsq(d - gd) <= (Q)1e-14 * (fabsq(gd) + powq(u, m > 0 ? m - 1 : 0) * powq(n + 1, m + 1) / mf) + (Q)1e-30 * (n + 1) * fabsq(e) / h)) fail("dP/dtheta(" + std::to_string(n) + "," + std::to_string(m) + ") " + qs(gd) + " vs " + qs(d));
       }
     }
@@ -257,10 +260,10 @@ int main(int argc, char** argv) {
   ref::harm_small_threshold() = SMALLCOEF;
   std::vector<Section> S;
   S.push_back({"selftest", 64, 400, false, sec_selftest, 120});
-  S.push_back({"sh", 12000, 400000, true, sec_sh, 120});
+  S.push_back({"sh", 30000, 600000, true, sec_sh, 120});
   S.push_back({"fieldcomp", 20000, 600000, true, sec_fieldcomp});
-  S.push_back({"magnetic", 5000, 150000, true, sec_magnetic, 120});
-  S.push_back({"gravity", 1600, 60000, true, sec_gravity, 120});
+  S.push_back({"magnetic", 10000, 200000, true, sec_magnetic, 120});
+  S.push_back({"gravity", 4000, 80000, true, sec_gravity, 120});
   S.push_back({"normal", 2000, 60000, true, sec_normal, 60});
   return vh::run_sections(argc, argv, S);
 }
